@@ -10,7 +10,6 @@ func TestVerifReplay(t *testing.T) {
 	verifsym.RunReplay(t, map[string]any{
 		"Verif_C20_Total":           Verif_C20_Total,
 		"Verif_C20_IrregularPrefix": Verif_C20_IrregularPrefix,
-		"Verif_C20_RegexpDiff":      Verif_C20_RegexpDiff,
 		"Verif_C20_LongPrefix":      Verif_C20_LongPrefix,
 		"Verif_C20_TotalLong":       Verif_C20_TotalLong,
 		"Verif_C20_CallHistory":     Verif_C20_CallHistory,
